@@ -214,6 +214,9 @@ TwoStep(o, z0, ev, var) ==
 RECURSIVE TwoFold(_, _, _, _)
 TwoFold(o, z, evs, var) == IF evs = <<>> THEN z ELSE TwoFold(o, TwoStep(o, z, Head(evs), var), Tail(evs), var)
 
+CutName(k) == CASE k = 0 -> "cut0" [] k = 1 -> "cut1" [] k = 2 -> "cut2" [] k = 3 -> "cut3" [] k = 4 -> "cut4"
+                 [] k = 5 -> "cut5" [] k = 6 -> "cut6" [] k = 7 -> "cut7" [] OTHER -> "cut8"
+
 (* interpretations the documentation leaves open (spec/AMBIGUOUS.md); a subscriber's log is *)
 (* accepted if it equals the reference under SOME combination of them                       *)
 AmbiguousChoices == {"su-c", "smp-c"}
@@ -311,7 +314,10 @@ Ref(x, g, lo, hi, var) ==
     [] o = "of_option" -> S(IF IsSome(PV(x)) THEN <<Unwrap(PV(x))>> ELSE <<>>, "C", U)
     [] o = "of_result" -> IF PV(x)[1] = "e" THEN S(<<>>, "E", PV(x)) ELSE S(<<Unwrap(PV(x))>>, "C", U)
     [] o = "of_fn" \/ o = "start" -> S(<<PV(x)>>, "C", U)
-    [] o = "from_iter" -> S(PL(x), "C", U)
+    [] o = "from_iter" ->        \* variant "cut<k>" (used by monitor C16): only the first k items, not yet finished
+         IF \E k \in 0..Len(PL(x)) : CutName(k) \in var
+         THEN S(SubSeq(PL(x), 1, CHOOSE k \in 0..Len(PL(x)) : CutName(k) \in var), "", U)
+         ELSE S(PL(x), "C", U)
     [] o = "repeat" -> S([i \in 1..PA(x) |-> PV(x)], "C", U)
     [] o = "empty" -> S(<<>>, "C", U)
     [] o = "never" -> S(<<>>, "", U)
